@@ -50,7 +50,7 @@ impl Ctx {
             .or_default()
             .entry(kind)
             .or_insert(0) += 1;
-        self.id += 1;
+        self.id = self.id.wrapping_add(1); // (replay mode sets `id` from the input line)
         use std::fmt::Write;
         let _ = write!(self.out, "{} {}{} ", self.id, self.prefix, op);
         Sx::L(args).write(&mut self.out);
